@@ -197,11 +197,26 @@ impl Serialize for AsPersonNames<'_> {
 pub struct PersonNameDef<'a> {
     #[serde(rename = "Alphabetic")]
     alphabetic: &'a str,
+    #[serde(rename = "Ideographic", skip_serializing_if = "Option::is_none")]
+    ideographic: Option<&'a str>,
+    #[serde(rename = "Phonetic", skip_serializing_if = "Option::is_none")]
+    phonetic: Option<&'a str>,
 }
 
 impl<'a> From<&'a str> for PersonNameDef<'a> {
+    /// Split the person name at `=` into its component groups
+    /// (alphabetic, ideographic, phonetic);
+    /// empty ideographic and phonetic groups are left out.
     fn from(value: &'a str) -> Self {
-        PersonNameDef { alphabetic: value }
+        let mut groups = value.splitn(3, '=');
+        let alphabetic = groups.next().unwrap_or_default();
+        let ideographic = groups.next().filter(|group| !group.is_empty());
+        let phonetic = groups.next().filter(|group| !group.is_empty());
+        PersonNameDef {
+            alphabetic,
+            ideographic,
+            phonetic,
+        }
     }
 }
 
